@@ -541,6 +541,20 @@ def r143(ctx, R, table):
     R.count('R14.3', n, 45)
 
 
+def _rest_after_guard(n):
+    """Statements that follow ``if c: <never falls through>`` (no else) in
+    the same block: they run exactly when c is false."""
+    if n.orelse or not C._terminates(n.body):
+        return []
+    par = getattr(n, '_parent', None)
+    for fld in ('body', 'orelse', 'finalbody'):
+        blk = getattr(par, fld, None)
+        if isinstance(blk, list) and any(n is x for x in blk):
+            i = [k for k, x in enumerate(blk) if x is n][0]
+            return blk[i + 1:]
+    return []
+
+
 def route_gates(ctx, fs):
     G = ctx.gates
     out = set()
@@ -573,8 +587,9 @@ def route_gates(ctx, fs):
             # polarity of its own (if/else may be written either way round)
             top = par if neg else g.node
             up = getattr(top, '_parent', None)
-            both = isinstance(up, ast.If) and up.test is top and bool(
-                up.orelse) or isinstance(up, ast.IfExp) and up.test is top
+            both = isinstance(up, ast.If) and up.test is top and (bool(
+                up.orelse) or _rest_after_guard(up)) or isinstance(
+                    up, ast.IfExp) and up.test is top
             if both:
                 out.add('~%d' % g.minv[1])
             else:
@@ -624,24 +639,39 @@ def _gates_of_test(ctx, f, t):
     from psa.rules.c05 import single_def
     out = []
 
-    def rec(e, pol, depth=0):
+    def rec(e, pol, depth=0, fn=f):
         if depth > 4:
             return
         if isinstance(e, ast.UnaryOp) and isinstance(e.op, ast.Not):
-            rec(e.operand, not pol, depth)
+            rec(e.operand, not pol, depth, fn)
             return
         if isinstance(e, ast.BoolOp):
             for v in e.values:
-                rec(v, pol, depth)
+                rec(v, pol, depth, fn)
             return
-        g = ctx.gates.gate_of(f, e)
+        g = ctx.gates.gate_of(fn, e)
         if g is not None and g.minv:
             out.append((g.minv, pol))
             return
         if isinstance(e, ast.Name):
-            d = single_def(f, e.id)
+            d = single_def(fn, e.id)
             if d is not None:
-                rec(d.value, pol, depth + 1)
+                rec(d.value, pol, depth + 1, fn)
+            elif e.id in fn.params:
+                # a flag handed to a helper: what the callers bind to it
+                i = fn.params.index(e.id)
+                for caller in sorted(ctx.cg.callers.get(fn, ()),
+                                     key=lambda x: x.qname):
+                    for s_ in ctx.cg.calls_in(caller):
+                        if fn not in s_.callees:
+                            continue
+                        a_ = C.kwarg(s_.node, e.id)
+                        off = 1 if fn.cls is not None and fn.params and \
+                            fn.params[0] in ('self', 'cls') else 0
+                        if a_ is None and 0 <= i - off < len(s_.node.args):
+                            a_ = s_.node.args[i - off]
+                        if a_ is not None:
+                            rec(a_, pol, depth + 1, caller)
     rec(t, True)
     return out
 
@@ -679,10 +709,13 @@ def gated_keys(ctx, fs):
         for n in own_nodes(f.node):
             if not isinstance(n, ast.If):
                 continue
+            # guard-clause form: "if c: ...; return" + rest is read as
+            # "if c: ... else: rest"
+            orelse = n.orelse or _rest_after_guard(n)
             for minv, pol in _gates_of_test(ctx, f, n.test):
                 for k in _keys_written(n.body):
                     out.add('%s%d:%s' % ('+' if pol else '-', minv[1], k))
-                for k in _keys_written(n.orelse):
+                for k in _keys_written(orelse):
                     out.add('%s%d:%s' % ('-' if pol else '+', minv[1], k))
     return sorted(out)
 
